@@ -115,6 +115,20 @@ def plan(tier, seed):
 
 
 def _emulsion_field(rng, dim, k, noise):
+    if dim == 3 and rng.random() < 0.5:
+        # cylindrical grid with dz != dr: on-axis droplets (all frames of a storage share the grid object)
+        nr, nz = int(rng.integers(8, 13)), int(rng.integers(30, 44))
+        hz = float(rng.choice([0.5, 0.8, 1.25]))
+        spec = {"family": "cyl", "radius": float(nr), "bounds_z": [0.0, hz * nz], "shape": [nr, nz], "periodic_z": False}
+        drops, z = [], 5.0 * hz
+        for _ in range(k):
+            R = float(rng.uniform(2.0, 3.0))
+            z += R + 2.0
+            if z + R + 3.0 > hz * nz:
+                break
+            drops.append({"cls": "DiffuseDroplet", "pos": [0.0, 0.0, z], "radius": R, "width": float(rng.uniform(0.7, 1.1)), "amps": None})
+            z += R + 4.0
+        return {"grid": spec, "droplets": drops, "noise": noise, "seed": int(rng.integers(1 << 30))}
     n = {2: int(rng.integers(28, 44)), 3: int(rng.integers(14, 18))}[dim]
     spec = {"family": "cart", "bounds": [[0.0, float(n)]] * dim, "shape": [n] * dim,
             "periodic": [bool(rng.integers(0, 2)) for _ in range(dim)]}
@@ -146,7 +160,7 @@ def gen(rng, kind, tier):
             opts["refine_args"] = {"least_squares_params": {"max_nfev": 30}, "tolerance": 1e-9}
         return {"field": f, "opts": opts, "schedule": sched, "num_processes": nproc, "sched_seed": int(rng.integers(1 << 30))}
     if kind == "storage":
-        dim = 2
+        dim = 2 if rng.random() < 0.75 else 3
         n = int(rng.integers(3, 9))
         frames = []
         for i in range(n):
@@ -388,6 +402,9 @@ def history_block(spec, rec):
 
 def _once(field, what):
     import droplets
+
+    if what in ("structure", "length") and type(field.grid).__name__ != "CartesianGrid" and type(field.grid).__name__ != "UnitGrid":
+        what = "locate-refine"  # structure factors are only defined on Cartesian grids
 
     if what == "locate":
         return snap(droplets.locate_droplets(field))
